@@ -293,3 +293,14 @@ def _c16_common_head(rec):
             if ast.dump(a) == ast.dump(b):
                 return True
     return False
+
+
+# ----------------------------------------------------------------------------------------- C20
+@classifier("ignore-comment-not-honoured-by-direct-edits")
+def _c20_direct(rec):
+    """Rules that edit the text through the direct back-end (processing.alter_code / remove_nodes / _insert_nodes / _replace_nodes:
+    move_before_loop, the duplicate-import and sort-import rules, missing_context_manager, swap_if_else's implicit form,
+    remove_duplicate_functions, ...) never consult has_ignore_comment for the lines they delete or move: the code of an annotated
+    line is removed or moved and the bare comment stays behind."""
+    d = rec.get("detail") or {}
+    return rec.get("kind") == "ignored_line_not_carried_over" and d.get("direct_edit_backend") is True and not d.get("scheduled_backend")
